@@ -520,6 +520,8 @@ def oracle_case(case, obs, small=True):
         st = case.steps[si]
         if text.startswith("panic"):
             return "step %d `%s` panicked" % (si, st)
+        if st == "nvord" and text != "ok":
+            return "node value type whose PartialOrd is the reverse of its Ord (Nv): %s" % text[:300]
         if st.startswith("srch"):
             if g is None:
                 g = graph_of_case(case)
